@@ -92,6 +92,7 @@ func rulesC11(c *Ctx) {
 
 	runeWidthC11(c, mr, me)
 	parseFlagsC11(c, me)
+	opThenOperandC11(c)
 	// ---- C11.ops ----
 	c.Rule("C11.ops", "matchRegex, evaluated by constant propagation with the node's Op bound to every regexp/syntax operator, can report success only for OpLiteral, OpCapture, OpConcat, OpCharClass and OpAlternate — operators whose language is finite when their parts' are; repetition, any-char, empty-match and anchor operators always fail")
 	finite := map[string]bool{"OpLiteral": true, "OpCapture": true, "OpConcat": true, "OpCharClass": true, "OpAlternate": true}
@@ -772,4 +773,117 @@ func parseFlagsC11(c *Ctx, me *ssa.Function) {
 		}
 	}
 	c.Floor("C11.parseflags", n, 1)
+}
+
+// opThenOperandC11: once the operator of a regex condition has been rewritten,
+// the node that is returned no longer has the regex as its operand.
+func opThenOperandC11(c *Ctx) {
+	p := c.P
+	c.Rule("C11.opthenoperand", "in the RewriteRegexConditions callback every return reachable after the store that turns the node's operator into = / != either hands back another node or is preceded by a store of a string literal into the node's RHS: a path that gives the node back with the new operator and the old regex operand yields `host = /re/`, which matches nothing")
+	outer := p.SSAFunc(p.Method("SelectStatement", "RewriteRegexConditions"))
+	if outer == nil || len(outer.AnonFuncs) == 0 {
+		c.Unk("C11.opthenoperand", "RewriteRegexConditions$lit", 0, "anchor not found")
+		return
+	}
+	lit := outer.AnonFuncs[0]
+	var opStores []*ssa.Store
+	var rhsStoreBlocks []*ssa.BasicBlock
+	var node ssa.Value
+	for _, b := range lit.Blocks {
+		for _, in := range b.Instrs {
+			st, ok := in.(*ssa.Store)
+			if !ok {
+				continue
+			}
+			fa, ok := st.Addr.(*ssa.FieldAddr)
+			if !ok || p.TypeStr(fa.X.Type()) != "*BinaryExpr" {
+				continue
+			}
+			if _, fresh := fa.X.(*ssa.Alloc); fresh {
+				continue
+			}
+			switch fieldNameOf(fa) {
+			case "Op":
+				opStores = append(opStores, st)
+				node = fa.X
+			case "RHS":
+				rhsStoreBlocks = append(rhsStoreBlocks, b)
+			}
+		}
+	}
+	if len(opStores) == 0 {
+		c.Unk("C11.opthenoperand", "RewriteRegexConditions$lit: operator store", lit.Pos(), "the callback does not rewrite the operator of the node in place")
+		return
+	}
+	n := 0
+	for _, b := range lit.Blocks {
+		ret, ok := b.Instrs[len(b.Instrs)-1].(*ssa.Return)
+		if !ok || len(ret.Results) != 1 {
+			continue
+		}
+		after := false
+		for _, st := range opStores {
+			if st.Block() == b || reaches(st.Block(), b, map[int]bool{}) {
+				after = true
+			}
+		}
+		if !after {
+			continue
+		}
+		n++
+		key := fmt.Sprintf("RewriteRegexConditions$lit: return #%d after the operator store", n)
+		// is the node itself returned?
+		same := false
+		v := ret.Results[0]
+		for i := 0; i < 4; i++ {
+			switch x := v.(type) {
+			case *ssa.MakeInterface:
+				v = x.X
+				continue
+			case *ssa.ChangeInterface:
+				v = x.X
+				continue
+			}
+			break
+		}
+		if v == node {
+			same = true
+		}
+		if prm, ok := v.(*ssa.Parameter); ok && len(lit.Params) > 0 && prm == lit.Params[0] {
+			same = true
+		}
+		if !same {
+			c.OK("C11.opthenoperand", key, ret.Pos(), "another node is returned")
+			continue
+		}
+		// can the return be reached from an operator store without passing a
+		// block that stores the operand?
+		isRHS := map[*ssa.BasicBlock]bool{}
+		for _, sb := range rhsStoreBlocks {
+			isRHS[sb] = true
+		}
+		stored := true
+		for _, st := range opStores {
+			seen := map[*ssa.BasicBlock]bool{}
+			work := []*ssa.BasicBlock{st.Block()}
+			for len(work) > 0 {
+				x := work[len(work)-1]
+				work = work[:len(work)-1]
+				if seen[x] || (isRHS[x] && x != st.Block()) {
+					continue
+				}
+				seen[x] = true
+				if x == b && (x != st.Block() || !isRHS[x]) {
+					stored = false
+				}
+				work = append(work, x.Succs...)
+			}
+		}
+		if stored {
+			c.OK("C11.opthenoperand", key, ret.Pos(), "the operand was replaced first")
+		} else {
+			c.Bad("C11.opthenoperand", key, ret.Pos(), "the node comes back with the rewritten operator and its regex operand untouched")
+		}
+	}
+	c.Floor("C11.opthenoperand", n, 2)
 }
